@@ -1222,6 +1222,150 @@ def run_two_leg(case, ctx):
 
 
 # ---------------------------------------------------------------------------------------------------------------
+# life cycle of user ODEs coupled to particle data (BS advances N-body and user ODEs together)
+
+K_ODE = 30.0     # oscillator error <= K_ODE * eps * oscillations (measured <= 0.3 * eps * oscillations)
+
+
+@st.composite
+def ode_life_case(draw, tier="quick"):
+    sysd = draw(regime_system("R2", 3))
+    n = draw(st.integers(1, 2 if tier == "quick" else 3))
+    odes = []
+    for _ in range(n):
+        odes.append({"w_frac": draw(S.floats(0.3, 3.0)), "c": draw(S.floats(0.2, 2.0)), "k": draw(st.integers(0, 2)),
+                     "u0": draw(S.floats(-1.0, 1.0)), "ud0": draw(S.floats(-1.0, 1.0)),
+                     # start: coupled (needs_nbody=True, forced RHS) from its creation before the first step
+                     # flip : created before the first step uncoupled (needs_nbody=False, free RHS); after leg 1 the
+                     #        RHS is switched to the forced one and needs_nbody set to True
+                     # late : created after leg 1, coupled
+                     "life": draw(st.sampled_from(["start", "flip", "flip", "late"]))})
+    return {"system": sysd, "odes": odes, "leg1": draw(S.floats(0.2, 1.5)), "norb": draw(st.sampled_from([2, 3])),
+            "backward": draw(st.sampled_from([False, False, True])), "dt_frac": draw(st.sampled_from([0.01, 0.05]))}
+
+
+def run_ode_life(case, ctx):
+    """Leg 1 (always eps=1e-10) up to T1 with the generated life cycle, then every ODE is a forced oscillator
+    u'' = -w^2 u + c x_k(t) with needs_nbody=True.  The state read back at T1 (particles and every ODE's y) is the
+    initial condition of the reference (one reference run per ODE), so only leg 2 is measured: its error must be in
+    the tolerance class for eps=1e-8 and 1e-10 and must not grow when eps is tightened."""
+    import warnings
+    from ..oracles import c01_ref
+    warnings.simplefilter("ignore")
+    sysd = case["system"]
+    n_orb = 2 * math.pi / sysd["P_min"]
+    sgn = -1.0 if case["backward"] else 1.0
+    T1 = sgn * snap(case["leg1"] * sysd["P_min"])
+    T2 = T1 + sgn * snap(case["norb"] * sysd["P_min"])
+    specs = []
+    for o in case["odes"]:
+        w = o["w_frac"] * n_orb
+        u0, ud0 = o["u0"], o["ud0"] * w
+        if abs(o["u0"]) + abs(o["ud0"]) < 0.05:
+            u0 = 0.5
+        specs.append({"w": w, "c": o["c"] * w * w, "k": o["k"] % len(sysd["particles"]), "u0": u0, "ud0": ud0,
+                      "life": o["life"]})
+    lives = "+".join(sp["life"] for sp in specs)
+
+    def rhs(sp, forced):
+        w, c, k = sp["w"], sp["c"], sp["k"]
+
+        def deriv(o, yDot, y, t):
+            yDot[0] = y[1]
+            f = -w * w * y[0]
+            if forced:
+                f += c * o.contents.r.contents.particles[k].x
+            yDot[1] = f
+        return deriv
+
+    def run(eps, want_mid=False):
+        sim = setup(sysd, {"integrator": "bs", "set": []})
+        sim.ri_bs.eps_rel = 1e-10
+        sim.ri_bs.eps_abs = 1e-10
+        sim.dt = sgn * case["dt_frac"] * sysd["P_min"]
+        count = [0]
+
+        def hb(_):
+            count[0] += 1
+            if count[0] > STEP_CAP:
+                sim.stop()
+        sim.heartbeat = hb
+        handles = [None] * len(specs)
+        for i, sp in enumerate(specs):
+            if sp["life"] == "late":
+                continue
+            coupled = sp["life"] == "start"
+            ode = sim.create_ode(length=2, needs_nbody=coupled)
+            ode.derivatives = rhs(sp, coupled)
+            ode.y[0], ode.y[1] = sp["u0"], sp["ud0"]
+            handles[i] = ode
+        try:
+            sim.integrate(T1)
+            for i, sp in enumerate(specs):
+                if sp["life"] == "late":
+                    ode = sim.create_ode(length=2, needs_nbody=True)
+                    ode.derivatives = rhs(sp, True)
+                    ode.y[0], ode.y[1] = sp["u0"], sp["ud0"]
+                    handles[i] = ode
+                elif sp["life"] == "flip":
+                    handles[i].derivatives = rhs(sp, True)
+                    handles[i].needs_nbody = 1
+            mid = None
+            if want_mid:
+                mid = ({"G": sysd["G"], "particles": [{"m": q.m, "x": q.x, "y": q.y, "z": q.z, "vx": q.vx, "vy": q.vy,
+                                                       "vz": q.vz} for q in [sim.particles[j] for j in range(sim.N)]]},
+                       [(h.y[0], h.y[1]) for h in handles])
+            sim.ri_bs.eps_rel = eps
+            sim.ri_bs.eps_abs = eps
+            sim.integrate(T2)
+        except RuntimeError as ex:
+            raise Violation("ode life cycle %s eps=%g: the integrator reports an error on valid input: %s" % (lives, eps, ex))
+        if count[0] > STEP_CAP:
+            raise Violation("ode life cycle %s eps=%g: more than %d steps (step size collapsed to %r)" % (lives, eps, STEP_CAP, sim.dt))
+        if sim.t != T2:
+            raise Violation("ode life cycle %s: integrate(%r) returned at t=%r" % (lives, T2, sim.t))
+        return sim, handles, mid
+
+    sim_l, h_l, mid = run(1e-8, want_mid=True)
+    sim_t, h_t, _ = run(1e-10)
+    parts, ys = mid
+    osc_n = abs(T2 - T1) / sysd["P_min"]
+    for i, sp in enumerate(specs):
+        ref = c01_ref.reference(ref_spec(parts, {"ode": {"w": sp["w"], "c": sp["c"], "k": sp["k"], "u0": ys[i][0],
+                                                         "ud0": ys[i][1]}, "t0": T1}), [T2])[0]
+        w = sp["w"]
+        U = max(abs(ref["u"][0][0]), abs(ref["u"][1][0]) / w, abs(ys[i][0]), abs(ys[i][1]) / w)
+        errs = []
+        for h in (h_l, h_t):
+            errs.append(max(abs(c01_ref.diff(h[i].y[0], ref["u"][0])), abs(c01_ref.diff(h[i].y[1], ref["u"][1])) / w) / U)
+        osc = osc_n * max(1.0, sp["w"] / n_orb)
+        what = "user ODE %d of %d (life cycles %s, this one '%s')%s" % (i + 1, len(specs), lives, sp["life"],
+                                                                       " backward" if case["backward"] else "")
+        for eps, e in zip((1e-8, 1e-10), errs):
+            bound = FLOOR + K_ODE * eps * osc
+            ctx.stat_max("ode_error/class_bound", e / bound)
+            if not e <= bound:
+                raise Violation("%s: oscillator forced by particle %d: error %.3e with eps=%g exceeds the tolerance "
+                                "class %.3e (errors at eps=1e-8, 1e-10: %.3e, %.3e)" % (what, sp["k"], e, eps, bound,
+                                                                                        errs[0], errs[1]))
+        fl = FLOOR * 10
+        if not errs[1] <= 2 * errs[0] + fl:
+            raise Violation("%s: tightening eps 1e-8 -> 1e-10 increases the error from %.3e to %.3e" % (what, errs[0], errs[1]))
+        ctx.cls("life:" + sp["life"])
+    # the N-body part advanced together with the ODEs
+    refn = c01_ref.reference(ref_spec(parts, {"t0": T1}), [T2])[0]
+    for eps, sm in ((1e-8, sim_l), (1e-10, sim_t)):
+        en, _ = state_error(sm, refn)
+        nb_bound = FLOOR * hierarchy(sysd) + BS_K * eps * case["norb"]
+        if not en <= nb_bound:
+            raise Violation("ode life cycle %s: N-body error %.3e with eps=%g exceeds %.3e" % (lives, en, eps, nb_bound))
+    ctx.cls("cycle:" + lives)
+    if case["backward"]:
+        ctx.cls("backward")
+    ctx.nontrivial()
+
+
+# ---------------------------------------------------------------------------------------------------------------
 
 def subs(tier):
     return [
@@ -1231,6 +1375,8 @@ def subs(tier):
             shards_thorough=16),
         Sub("adaptive", run_adaptive, strategy=adaptive_case(tier), quick=192, thorough=6400, shards_quick=8, shards_thorough=16),
         Sub("ode", run_ode, strategy=ode_case(tier), quick=48, thorough=1600, shards_quick=8, shards_thorough=16),
+        Sub("ode_life", run_ode_life, strategy=ode_life_case(tier), quick=64, thorough=2400, shards_quick=8,
+            shards_thorough=16),
         Sub("sei", run_sei, strategy=sei_case(tier), quick=160, thorough=3200, shards_quick=4, shards_thorough=8),
         Sub("trace_peri", run_trace_peri, strategy=trace_peri_case(tier), quick=120, thorough=4800, shards_quick=4,
             shards_thorough=8),
